@@ -2,6 +2,7 @@ package rules
 
 import (
 	"fmt"
+	"go/constant"
 	"go/token"
 	"go/types"
 	"os"
@@ -109,14 +110,168 @@ func persistPoints(fn *ssa.Function) []ssa.Instruction {
 	return out
 }
 
-// pathIs: every origin of the path value (followed through helper parameters) is the result of fnName.
-func pathIs(P *core.Program, v ssa.Value, fnName string) bool {
-	return P.AllOrigins(v, nil, func(o ssa.Value) bool { return pathFrom(o, fnName) })
+// The file store's two kinds of path are recognised by how they are built, not by the
+// name of the helper that builds them: a *sidecar* path ends in the metadata extension
+// constant (`… + metaExtention`, possibly inside a helper), a *content* path is a plain
+// filepath.Join (possibly inside a helper).  Both are followed through helper parameters.
+func sidecarPath(P *core.Program, v ssa.Value, within map[*ssa.Function]bool) bool {
+	ext := ".emumeta"
+	if sp := P.SPkgs[core.PkgGcsemu]; sp != nil {
+		if k, ok := sp.Pkg.Scope().Lookup("metaExtention").(*types.Const); ok && k.Val().Kind() == constant.String {
+			ext = constant.StringVal(k.Val())
+		}
+	}
+	return P.AllOrigins(v, within, func(o ssa.Value) bool {
+		s, ok := suffixConst(o)
+		return ok && s == ext
+	})
 }
 
-func pathFrom(v ssa.Value, fnName string) bool {
+func contentPath(P *core.Program, v ssa.Value, within map[*ssa.Function]bool) bool {
+	return P.AllOrigins(v, within, func(o ssa.Value) bool { return joinedPath(o, 0) })
+}
+
+func joinedPath(v ssa.Value, depth int) bool {
 	call, ok := core.Resolve(v).(*ssa.Call)
-	return ok && call.Call.StaticCallee() != nil && core.FuncName(call.Call.StaticCallee()) == fnName
+	if !ok || depth > 3 {
+		return false
+	}
+	if core.Call(call).IsFunc("path/filepath", "Join") {
+		return true
+	}
+	g := call.Call.StaticCallee()
+	if g == nil || g.Blocks == nil || core.PkgPathOf(g) != core.PkgGcsemu {
+		return false
+	}
+	n := 0
+	for _, r := range returnsIn(g) {
+		if len(r.Results) != 1 {
+			return false
+		}
+		for _, rv := range returnValues(r.Results[0]) {
+			if !joinedPath(rv, depth+1) {
+				return false
+			}
+			n++
+		}
+	}
+	return n > 0
+}
+
+// copySides checks the addressing of every read and of the write in a store's Copy.
+func copySides(P *core.Program, cp, add *ssa.Function, cpSet map[*ssa.Function]bool) (bool, string) {
+	type ctxT map[*ssa.Parameter]map[int]bool
+	root := ctxT{}
+	for i, pa := range cp.Params[1:] {
+		root[pa] = map[int]bool{1 + i/2: true} // 1 = source, 2 = destination
+	}
+	private := func(g *ssa.Function) bool {
+		if g == nil || g == add || g == cp || !cpSet[g] {
+			return false
+		}
+		refs := P.Refs(g)
+		if len(refs) == 0 {
+			return false
+		}
+		for _, r := range refs {
+			if !cpSet[r.Instr.Parent()] {
+				return false
+			}
+		}
+		return true
+	}
+	isStr := func(t types.Type) bool {
+		b, ok := t.Underlying().(*types.Basic)
+		return ok && b.Info()&types.IsString != 0
+	}
+	var sidesOf func(v ssa.Value, ctx ctxT, seen map[ssa.Value]bool, depth int) map[int]bool
+	sidesOf = func(v ssa.Value, ctx ctxT, seen map[ssa.Value]bool, depth int) map[int]bool {
+		out := map[int]bool{}
+		if v == nil || depth > 10 || !isStr(v.Type()) {
+			return out
+		}
+		v = core.Resolve(v)
+		if seen[v] {
+			return out
+		}
+		seen[v] = true
+		merge := func(m map[int]bool) {
+			for k := range m {
+				out[k] = true
+			}
+		}
+		switch x := v.(type) {
+		case *ssa.Parameter:
+			merge(ctx[x])
+		case *ssa.Call:
+			for _, a := range x.Call.Args {
+				merge(sidesOf(a, ctx, seen, depth+1))
+			}
+		case *ssa.BinOp:
+			merge(sidesOf(x.X, ctx, seen, depth+1))
+			merge(sidesOf(x.Y, ctx, seen, depth+1))
+		case *ssa.Phi:
+			for _, e := range x.Edges {
+				merge(sidesOf(e, ctx, seen, depth+1))
+			}
+		case *ssa.UnOp:
+			if cell := core.CellOf(x.X); cell != nil {
+				for _, st := range core.StoresTo(cell) {
+					merge(sidesOf(st.Val, ctx, seen, depth+1))
+				}
+			}
+		}
+		return out
+	}
+	ok, why := true, ""
+	var visit func(f *ssa.Function, ctx ctxT, depth int)
+	visit = func(f *ssa.Function, ctx ctxT, depth int) {
+		for _, ci := range core.AllCalls(f) {
+			g := ci.Static
+			if g != nil && private(g) && depth < 4 {
+				sub := ctxT{}
+				for i, a := range ci.Common.Args {
+					if i < len(g.Params) {
+						sub[g.Params[i]] = sidesOf(a, ctx, map[ssa.Value]bool{}, 0)
+					}
+				}
+				visit(g, sub, depth+1)
+				continue
+			}
+			// leaves: the store's methods and shared lookup helpers, file operations
+			leaf := false
+			switch {
+			case g == nil:
+			case g == add:
+				leaf = true
+			case g.Pkg != nil && (g.Pkg.Pkg.Path() == "os" || g.Pkg.Pkg.Path() == "io/ioutil"):
+				leaf = true
+			case core.PkgPathOf(g) == core.PkgGcsemu:
+				res := g.Signature.Results()
+				leaf = !(res.Len() == 1 && isStr(res.At(0).Type()))
+			}
+			if !leaf {
+				continue
+			}
+			sides := map[int]bool{}
+			for _, a := range ci.Common.Args {
+				for k := range sidesOf(a, ctx, map[ssa.Value]bool{}, 0) {
+					sides[k] = true
+				}
+			}
+			switch {
+			case len(sides) == 0:
+			case len(sides) > 1:
+				ok, why = false, "a call in Copy receives a source name together with a destination name ("+ci.CalleeName()+")"
+			case g == add && !sides[2]:
+				ok, why = false, "Copy adds the object under the source's name"
+			case g != add && !sides[1]:
+				ok, why = false, "Copy reads through the destination's name ("+ci.CalleeName()+")"
+			}
+		}
+	}
+	visit(cp, root, 0)
+	return ok, why
 }
 
 // R22: sibling agreement of the two GCS stores.
@@ -184,17 +339,15 @@ func R22() Rule {
 			cp := storeMethod(P, s, "Copy")
 			c.Fn(core.FuncName(cp))
 			var addCall ssa.Instruction
-			for _, ci := range core.AllCalls(cp) {
-				if ci.Static == add {
-					addCall = ci.Instr
-				}
+			cpScope := storeScope(P, cp)
+			cpSet := setOf(cpScope)
+			for _, ci := range core.CallsIn(cpScope, func(ci *core.CallInfo) bool { return ci.Static == add }) {
+				addCall = ci.Instr
 			}
 			okc := addCall != nil
 			whyc := "Copy does not go through the store's own Add (generation / metageneration laws are bypassed)"
 			if okc {
 				cleared := false
-				cpScope := storeScope(P, cp)
-				cpSet := setOf(cpScope)
 				for _, st := range storesToObjFieldIn(cpScope, "TimeCreated") {
 					if s2, isS := core.ConstString(st.Val); isS && s2 == "" && P.InterDominates(cp, st, addCall, cpSet) {
 						cleared = true
@@ -204,43 +357,12 @@ func R22() Rule {
 					okc, whyc = false, "Copy does not reset TimeCreated before adding the destination"
 				}
 			}
-			// source and destination names are not mixed: every call that receives two of Copy's four
-			// name parameters gets both from the same side, the Add gets the destination side, every
-			// other call (existence check, content read) the source side
+			// source and destination names are not mixed: every read (a store method, a shared lookup
+			// helper, a file operation) is addressed by names built from (srcBucket, srcFile) only, the
+			// Add by (dstBucket, dstFile) only.  Names are followed through string-building helpers and,
+			// per calling context, through the private helpers Copy is split into.
 			if len(cp.Params) == 5 {
-				side := func(v ssa.Value) int {
-					v = core.Resolve(v)
-					for i, pa := range cp.Params[1:] {
-						if v == ssa.Value(pa) {
-							return 1 + i/2 // 1 = source, 2 = destination
-						}
-					}
-					return 0
-				}
-				okSlots, whySlots := true, ""
-				for _, f := range storeScope(P, cp) {
-					if f != cp {
-						continue
-					}
-					for _, ci := range core.AllCalls(f) {
-						sides := map[int]bool{}
-						for _, a := range ci.Common.Args {
-							if sd := side(a); sd != 0 {
-								sides[sd] = true
-							}
-						}
-						if len(sides) == 0 {
-							continue
-						}
-						if len(sides) > 1 {
-							okSlots, whySlots = false, "a call in Copy receives a source name together with a destination name ("+ci.CalleeName()+")"
-						} else if ci.Static == add && !sides[2] {
-							okSlots, whySlots = false, "Copy adds the object under the source's name"
-						} else if ci.Static != add && !sides[1] {
-							okSlots, whySlots = false, "Copy reads through the destination's name ("+ci.CalleeName()+")"
-						}
-					}
-				}
+				okSlots, whySlots := copySides(P, cp, add, cpSet)
 				c.Check(okSlots, "R22", s+".Copy/source-and-destination-not-mixed", cp.Pos(), "reads use (srcBucket, srcFile), the write uses (dstBucket, dstFile)", whySlots+": the copy takes content or metadata from the wrong object (visible for cross-bucket copies)")
 			}
 			c.Check(okc, "R22", s+".Copy/through-Add-with-fresh-TimeCreated", cp.Pos(), "Copy clears TimeCreated and writes the destination with the store's own Add", whyc)
@@ -359,7 +481,7 @@ func R22() Rule {
 				for _, ci := range core.AllCalls(f) {
 					if ci.Static != nil && ci.Static.Pkg != nil && fsMutators[ci.Static.Pkg.Pkg.Path()+"."+ci.Static.Name()] {
 						n++
-						if !(ci.IsFunc("os", "WriteFile") && pathIs(P, ci.Common.Args[0], "metaFilename")) {
+						if !(ci.IsFunc("os", "WriteFile") && sidecarPath(P, ci.Common.Args[0], nil)) {
 							okOnly = false
 						}
 					}
@@ -373,19 +495,19 @@ func R22() Rule {
 			for _, f := range addScope {
 				for _, ci := range core.AllCalls(f) {
 					switch {
-					case ci.IsFunc("os", "WriteFile") && pathIs(P, ci.Common.Args[0], "metaFilename"):
+					case ci.IsFunc("os", "WriteFile") && sidecarPath(P, ci.Common.Args[0], nil):
 						meta = ci.Instr
 					case ci.IsFunc("os", "WriteFile"):
-						if P.AllOrigins(ci.Common.Args[0], addSet, func(v ssa.Value) bool { return pathFrom(v, "(*filestore).filename") }) {
+						if contentPath(P, ci.Common.Args[0], addSet) {
 							content = ci.Instr
 						}
 					case ci.IsFunc("os", "Create"):
-						if P.AllOrigins(ci.Common.Args[0], addSet, func(v ssa.Value) bool { return pathFrom(v, "(*filestore).filename") }) {
+						if contentPath(P, ci.Common.Args[0], addSet) {
 							content = ci.Instr
 						}
 					case ci.IsFunc("os", "OpenFile"):
 						// an explicit open replaces the old content only with O_TRUNC
-						if P.AllOrigins(ci.Common.Args[0], addSet, func(v ssa.Value) bool { return pathFrom(v, "(*filestore).filename") }) {
+						if contentPath(P, ci.Common.Args[0], addSet) {
 							if flags, isK := core.ConstInt(ci.Common.Args[1]); isK && flags&int64(os.O_TRUNC) != 0 {
 								content = ci.Instr
 							} else {
@@ -409,7 +531,7 @@ func R22() Rule {
 			for _, f := range storeScope(P, del) {
 				for _, ci := range core.AllCalls(f) {
 					if ci.IsFunc("os", "Remove") {
-						if pathIs(P, ci.Common.Args[0], "metaFilename") {
+						if sidecarPath(P, ci.Common.Args[0], nil) {
 							rmMeta = true
 						} else {
 							rmContent = true
